@@ -14,9 +14,11 @@ for sid in sorted(os.listdir(os.path.join(HERE, "seeded"))):
         continue
     meta = json.load(open(os.path.join(d, "meta.json")))
     prop = meta["property"]
+    if len(sys.argv) > 1 and sys.argv[1] not in sid:
+        continue
     caught = {}
     for chk in [prop] + EXTRA.get(sid, []):
-        p = subprocess.run([os.path.join(HERE, "tools", "try_seed.sh"), sid, chk], stdout=subprocess.PIPE, stderr=subprocess.STDOUT, env=dict(os.environ, LINES_SHOWN="40"))
+        p = subprocess.run([os.path.join(HERE, "tools", "try_seed_wt.sh"), sid, chk], stdout=subprocess.PIPE, stderr=subprocess.STDOUT, env=dict(os.environ, LINES_SHOWN="40"))
         out = p.stdout.decode()
         keys = sorted({l.split("violated: ")[1].split(": ")[0] for l in out.splitlines() if "violated: " in l})
         rc = int(out.strip().splitlines()[-1].split("exit=")[1]) if "exit=" in out else -1
